@@ -445,6 +445,249 @@ Definition opt_eqb (a b : option bytes) : bool :=
   | _, _ => false
   end.
 
+(* =====================================================================================
+   The life cycle of ONE Transaction object
+   =====================================================================================
+   A Transaction object is built (Transaction(...), add_input, add_output, Transaction.parse), observed
+   (signature / signature_hash / sign / verify / raw) and changed in place (attributes assigned, inputs and outputs
+   added, set_locktime_* methods, sign_and_update, shuffle_inputs), in any order.  The state that matters for the
+   digest is what raw() serialises, plus ONE duplicated field: the library keeps the version twice, as the four
+   bytes `version` (read by raw() and by both preimages) and as the number `version_int` (read and written by
+   set_locktime_relative_* and copied into `version` by sign_and_update).  Nothing else survives between calls in
+   the code mirrored here: hashPrevouts / hashSequence / hashOutputs are recomputed on every call.  Signatures,
+   scriptSig and witness live in ti_script / ti_wit of the inputs and are not read by the preimages. *)
+
+Record tobj := mk_tobj {
+  ob_version : Z;        (* Transaction.version: the 4 bytes, read big-endian *)
+  ob_version_int : Z;    (* Transaction.version_int *)
+  ob_ins : list sin;
+  ob_outs : list txout;
+  ob_locktime : Z;
+  ob_segwit : bool;      (* Transaction.witness_type = 'segwit' *)
+  ob_rbf : bool          (* Transaction.replace_by_fee *)
+}.
+
+(* the fields as raw() serialises them and as signature_segwit / raw(sign_id) read them *)
+Definition ob_fields (o : tobj) : stx :=
+  mk_stx (ob_version o) (ob_ins o) (ob_outs o) (ob_locktime o) (ob_segwit o).
+
+(* a new object that holds exactly these fields (Transaction(inputs, outputs, locktime, version, ...), which is also
+   what Transaction.parse constructs from the serialised bytes) *)
+Definition ob_fresh (t : stx) : tobj :=
+  mk_tobj (st_version t) (st_version t) (st_ins t) (st_outs t) (st_locktime t) (st_segwit t) false.
+
+Definition in32 (v : Z) : bool := (0 <=? v) && (v <? 2 ^ 32).
+
+(* Transaction(version=v, locktime=lt, witness_type=..., replace_by_fee=...) without inputs and outputs;
+   "if not version: version = b'\x00\x00\x00\x01'" *)
+Definition lib_new (v lt : Z) (sw rbf : bool) : tobj :=
+  let v' := if v =? 0 then 1 else v in mk_tobj v' v' [] [] lt sw rbf.
+
+(* Transaction(inputs=[Input...], outputs=[Output...], locktime, version): the lists are taken as they are *)
+Definition lib_ctor (v lt : Z) (sw : bool) (ins : list sin) (outs : list txout) : tobj :=
+  let v' := if v =? 0 then 1 else v in mk_tobj v' v' ins outs lt sw false.
+
+Definition sin_with_seq (q : Z) (x : sin) : sin :=
+  mk_sin (mk_txin (ti_prev (si_in x)) (ti_vout (si_in x)) (ti_script (si_in x)) q (ti_wit (si_in x)))
+         (si_index x) (si_kind x) (si_value x) (si_keys x) (si_m x).
+
+Definition sin_with_outpoint (prev : bytes) (vout : Z) (x : sin) : sin :=
+  mk_sin (mk_txin prev vout (ti_script (si_in x)) (ti_seq (si_in x)) (ti_wit (si_in x)))
+         (si_index x) (si_kind x) (si_value x) (si_keys x) (si_m x).
+
+Definition sin_with_value (v : Z) (x : sin) : sin :=
+  mk_sin (si_in x) (si_index x) (si_kind x) v (si_keys x) (si_m x).
+
+Definition sin_with_index (n : Z) (x : sin) : sin :=
+  mk_sin (si_in x) n (si_kind x) (si_value x) (si_keys x) (si_m x).
+
+(* Transaction.add_input: with replace_by_fee a final sequence becomes SEQUENCE_REPLACE_BY_FEE; a version-1
+   transaction is switched to version 2 (BOTH copies) by a BIP68 relative-locktime sequence *)
+Definition lib_add_input (o : tobj) (x : sin) : tobj :=
+  let q0 := ti_seq (si_in x) in
+  let q := if ob_rbf o && (q0 =? 4294967295) then cfg_SEQUENCE_REPLACE_BY_FEE else q0 in
+  let up := (ob_version o =? 1) && (0 <? q) && (q <? cfg_SEQUENCE_LOCKTIME_DISABLE_FLAG) in
+  mk_tobj (if up then 2 else ob_version o) (if up then 2 else ob_version_int o)
+          (ob_ins o ++ [sin_with_seq q x]) (ob_outs o) (ob_locktime o) (ob_segwit o) (ob_rbf o).
+
+Definition lib_add_output (o : tobj) (u : txout) : tobj :=
+  mk_tobj (ob_version o) (ob_version_int o) (ob_ins o) (ob_outs o ++ [u]) (ob_locktime o) (ob_segwit o) (ob_rbf o).
+
+Definition ob_with_ins (o : tobj) (ins : list sin) : tobj :=
+  mk_tobj (ob_version o) (ob_version_int o) ins (ob_outs o) (ob_locktime o) (ob_segwit o) (ob_rbf o).
+Definition ob_with_outs (o : tobj) (outs : list txout) : tobj :=
+  mk_tobj (ob_version o) (ob_version_int o) (ob_ins o) outs (ob_locktime o) (ob_segwit o) (ob_rbf o).
+Definition ob_with_locktime (o : tobj) (lt : Z) : tobj :=
+  mk_tobj (ob_version o) (ob_version_int o) (ob_ins o) (ob_outs o) lt (ob_segwit o) (ob_rbf o).
+Definition ob_with_versions (o : tobj) (v vi : Z) : tobj :=
+  mk_tobj v vi (ob_ins o) (ob_outs o) (ob_locktime o) (ob_segwit o) (ob_rbf o).
+
+(* l[i] = f(l[i]); an index beyond the list raises IndexError before anything is changed *)
+Fixpoint set_nth {A} (l : list A) (i : nat) (f : A -> A) : list A :=
+  match l, i with
+  | [], _ => []
+  | a :: r, O => f a :: r
+  | a :: r, S k => a :: set_nth r k f
+  end.
+
+Fixpoint pick_all {A} (l : list A) (p : list nat) : option (list A) :=
+  match p with
+  | [] => Some []
+  | k :: r => match nth_error l k, pick_all l r with Some a, Some s => Some (a :: s) | _, _ => None end
+  end.
+
+(* shuffle_inputs with the outcome of random.shuffle given as the list p of old positions; index_n renumbered *)
+Definition permute_ins (ins : list sin) (p : list nat) : list sin :=
+  if Nat.eqb (length p) (length ins) then
+    match pick_all ins p with
+    | Some l => map_idx (fun j x => sin_with_index (Z.of_nat j) x) O l
+    | None => ins
+    end
+  else ins.
+
+(* shuffle_outputs with the outcome of random.shuffle given (Output.output_n is not part of the model) *)
+Definition permute_outs (outs : list txout) (p : list nat) : list txout :=
+  if Nat.eqb (length p) (length outs) then
+    match pick_all outs p with Some l => l | None => outs end
+  else outs.
+
+(* Transaction.sign_and_update: "self.version = self.version_int.to_bytes(4, 'big')" (OverflowError leaves the
+   object as it was), then sign / txid / size, none of which touches a committed field *)
+Definition lib_sign_and_update (o : tobj) : tobj :=
+  if in32 (ob_version_int o) then ob_with_versions o (ob_version_int o) (ob_version_int o) else o.
+
+Definition final_to_enable (x : sin) : sin :=
+  if ti_seq (si_in x) =? 4294967295 then sin_with_seq cfg_SEQUENCE_ENABLE_LOCKTIME x else x.
+
+(* set_locktime_relative_blocks / _time share everything after the sequence value has been computed *)
+Definition lib_set_relative (o : tobj) (i : nat) (q lt : Z) : tobj :=
+  let vi := ob_version_int o in
+  lib_sign_and_update
+    (mk_tobj (ob_version o) (if vi <? 2 then 2 else vi) (set_nth (ob_ins o) i (sin_with_seq q)) (ob_outs o)
+             (if lt =? 0 then ob_locktime o else lt) (ob_segwit o) (ob_rbf o)).
+
+Definition lib_set_locktime_relative_blocks (o : tobj) (blocks : Z) (i : nat) (lt : Z) : tobj :=
+  if (length (ob_ins o) <=? i)%nat then o
+  else if (blocks =? 0) || (blocks =? 4294967295) then ob_with_ins o (set_nth (ob_ins o) i (sin_with_seq 4294967295))
+  else if cfg_SEQUENCE_LOCKTIME_MASK <? blocks then o
+  else lib_set_relative o i blocks lt.
+
+Definition lib_set_locktime_relative_time (o : tobj) (seconds : Z) (i : nat) (lt : Z) : tobj :=
+  if (length (ob_ins o) <=? i)%nat then o
+  else if (seconds =? 0) || (seconds =? 4294967295) then ob_with_ins o (set_nth (ob_ins o) i (sin_with_seq 4294967295))
+  else
+    let s := if seconds <? 512 then 512 else seconds in
+    if (512 <=? seconds) && (cfg_SEQUENCE_LOCKTIME_MASK <? seconds / 512) then o
+    else lib_set_relative o i (s / 512 + cfg_SEQUENCE_LOCKTIME_TYPE_FLAG) lt.
+
+(* set_locktime_blocks / set_locktime_time after their range checks *)
+Definition lib_set_absolute (o : tobj) (lt : Z) : tobj :=
+  lib_sign_and_update
+    (mk_tobj (ob_version o) (ob_version_int o) (map final_to_enable (ob_ins o)) (ob_outs o) lt (ob_segwit o) (ob_rbf o)).
+
+Definition lib_set_locktime_blocks (o : tobj) (blocks : Z) : tobj :=
+  if (blocks =? 0) || (blocks =? 4294967295) then ob_with_locktime o 4294967295
+  else if 500000000 <? blocks then o
+  else lib_set_absolute o blocks.
+
+Definition lib_set_locktime_time (o : tobj) (ts : Z) : tobj :=
+  if (ts =? 0) || (ts =? 4294967295) then ob_with_locktime o 4294967295
+  else if (ts <=? 500000000) || (4294967294 <? ts) then o
+  else lib_set_absolute o ts.
+
+(* Transaction.merge_transaction(other): inputs and outputs of the other transaction appended as they are (no BIP68
+   rule here), shuffle() (inputs with outcome pi, outputs with outcome po), update_totals, sign_and_update *)
+Definition lib_merge (o : tobj) (xs : list sin) (us : list txout) (pi po : list nat) : tobj :=
+  lib_sign_and_update
+    (mk_tobj (ob_version o) (ob_version_int o) (permute_ins (ob_ins o ++ xs) pi) (permute_outs (ob_outs o ++ us) po)
+             (ob_locktime o) (ob_segwit o) (ob_rbf o)).
+
+(* one step of a session *)
+Inductive mut :=
+| M_digest                                    (* signature / signature_hash for any input, hash type, path *)
+| M_sign                                      (* sign(...), with or without replace_signatures *)
+| M_verify                                    (* verify() *)
+| M_raw                                       (* raw() *)
+| M_seq (i : nat) (q : Z)                     (* inputs[i].sequence = q *)
+| M_outpoint (i : nat) (prev : bytes) (vout : Z)   (* inputs[i].prev_txid / output_n / output_n_int = ... *)
+| M_in_value (i : nat) (v : Z)                (* inputs[i].value = v *)
+| M_locktime (lt : Z)                         (* locktime = lt *)
+| M_version (v : Z)                           (* version = v.to_bytes(4, 'big'); version_int = v *)
+| M_version_int (v : Z)                       (* version_int = v alone (NOT a complete public way to change the version) *)
+| M_out_value (j : nat) (v : Z)               (* outputs[j].value = v *)
+| M_out_script (j : nat) (s : bytes)          (* outputs[j].lock_script = s *)
+| M_add_input (x : sin)
+| M_add_output (u : txout)
+| M_permute (p : list nat)                    (* shuffle_inputs *)
+| M_merge (xs : list sin) (us : list txout) (pi po : list nat)   (* merge_transaction *)
+| M_sign_and_update
+| M_rel_blocks (blocks : Z) (i : nat) (lt : Z)
+| M_rel_time (seconds : Z) (i : nat) (lt : Z)
+| M_lock_blocks (blocks : Z)
+| M_lock_time (ts : Z).
+
+Definition lib_apply (o : tobj) (m : mut) : tobj :=
+  match m with
+  | M_digest | M_sign | M_verify | M_raw => o
+  | M_seq i q => ob_with_ins o (set_nth (ob_ins o) i (sin_with_seq q))
+  | M_outpoint i prev vout => ob_with_ins o (set_nth (ob_ins o) i (sin_with_outpoint prev vout))
+  | M_in_value i v => ob_with_ins o (set_nth (ob_ins o) i (sin_with_value v))
+  | M_locktime lt => ob_with_locktime o lt
+  | M_version v => ob_with_versions o v v
+  | M_version_int v => ob_with_versions o (ob_version o) v
+  | M_out_value j v => ob_with_outs o (set_nth (ob_outs o) j (fun u => mk_txout v (to_script u)))
+  | M_out_script j s => ob_with_outs o (set_nth (ob_outs o) j (fun u => mk_txout (to_value u) s))
+  | M_add_input x => lib_add_input o x
+  | M_add_output u => lib_add_output o u
+  | M_permute p => ob_with_ins o (permute_ins (ob_ins o) p)
+  | M_merge xs us pi po => lib_merge o xs us pi po
+  | M_sign_and_update => lib_sign_and_update o
+  | M_rel_blocks b i lt => lib_set_locktime_relative_blocks o b i lt
+  | M_rel_time s i lt => lib_set_locktime_relative_time o s i lt
+  | M_lock_blocks b => lib_set_locktime_blocks o b
+  | M_lock_time ts => lib_set_locktime_time o ts
+  end.
+
+Definition ob_run (o : tobj) (ms : list mut) : tobj := fold_left lib_apply ms o.
+
+(* steps that only look at the object *)
+Definition is_observation (m : mut) : bool :=
+  match m with M_digest | M_sign | M_verify | M_raw => true | _ => false end.
+
+(* every step except the assignment to version_int alone: what remains keeps the two copies of the version equal *)
+Definition keeps_version_copies (m : mut) : bool :=
+  match m with M_version_int _ => false | _ => true end.
+
+(* building through the API: Transaction(version, locktime, ...) then add_input / add_output *)
+Definition ob_build_api (v lt : Z) (sw rbf : bool) (ins : list sin) (outs : list txout) : tobj :=
+  fold_left lib_add_output outs (fold_left lib_add_input ins (lib_new v lt sw rbf)).
+
+(* what the object answers at any moment of its life *)
+Definition ob_signature (H H160 : bytes -> bytes) (o : tobj) (sid ht : Z) (wt : wtype) : option bytes :=
+  lib_signature H H160 (ob_fields o) sid ht wt.
+Definition ob_digest (H H160 : bytes -> bytes) (o : tobj) (p : nat) (ht : Z) : option bytes :=
+  lib_digest H H160 (ob_fields o) p ht.
+Definition ob_verify_digest (H H160 : bytes -> bytes) (o : tobj) (p : nat) (ht : Z) : option bytes :=
+  lib_verify_digest H H160 (ob_fields o) p ht.
+
+(* ---- the scriptSig of a P2PK input after Transaction.sign put a new signature into Input.signatures ----
+   Input.update_scripts, script_type 'signature': "if self.signatures and not self.unlocking_script:
+   self.unlocking_script = varstr(sig)" — an existing scriptSig is kept.  [fixed] = fixes/C01-3: Transaction.sign
+   empties the scriptSig of a 'signature' input before update_scripts, so the new signature is written. *)
+Definition lib_p2pk_scriptsig_at (fixed : bool) (old : bytes) (sig : bytes) : option bytes :=
+  if fixed then lib_varstr sig
+  else match old with [] => lib_varstr sig | _ => Some old end.
+
+Definition lib_p2pk_scriptsig := lib_p2pk_scriptsig_at true.
+
+(* the part of an input / a transaction that a preimage may depend on: NOT scriptSig, witness, index_n *)
+Definition sin_committed (x : sin) : bytes * Z * Z * kind * Z * list bytes * Z :=
+  (ti_prev (si_in x), ti_vout (si_in x), ti_seq (si_in x), si_kind x, si_value x, si_keys x, si_m x).
+
+Definition committed_eq (t t' : stx) : Prop :=
+  st_version t = st_version t' /\ st_locktime t = st_locktime t' /\ st_segwit t = st_segwit t' /\
+  st_outs t = st_outs t' /\ map sin_committed (st_ins t) = map sin_committed (st_ins t').
+
 (* ---------- concrete transactions for the non-vacuity and refutation witnesses ---------- *)
 
 Definition ex_key (tag fill : byte) : bytes := tag :: repeat fill 32.
@@ -468,3 +711,16 @@ Definition ex_tx_zero : stx := mk_stx 2 [ex_in0 0 0; ex_in1 1 K_p2sh_multisig] e
 Definition ex_tx_zscript : stx := mk_stx 2 [ex_in0 0 5000000000; ex_in1 1 K_p2sh_multisig] [mk_txout 1 [x00]] 17 true.
 (* P2SH-P2WSH input asked for on the legacy path *)
 Definition ex_tx_nested : stx := mk_stx 2 [ex_in0 0 5000000000; ex_in1 1 K_p2sh_p2wsh] ex_outs 17 true.
+
+(* ---------- one object and one session for the life-cycle witnesses ---------- *)
+
+(* a native P2WPKH input carrying a BIP68 relative locktime of 144 blocks *)
+Definition ex_in_rel : sin :=
+  mk_sin (mk_txin (repeat xaa 32) 1 [] 144 []) 0 K_p2wpkh 5000000000 [ex_key x02 x11] 1.
+(* Transaction() with the default version, then add_input twice and add_output twice *)
+Definition ex_built : tobj := ob_build_api 0 0 true false [ex_in_rel; ex_in1 1 K_p2sh_multisig] ex_outs.
+(* the same with only final / non-BIP68 sequences: stays version 1 *)
+Definition ex_obj : tobj := ob_build_api 0 0 true false [ex_in0 0 5000000000; ex_in1 1 K_p2sh_multisig] ex_outs.
+(* sign, look, set a relative locktime on input 0, verify, set an absolute locktime, opt input 1 into RBF, re-sign, look *)
+Definition ex_session : list mut :=
+  [M_sign; M_digest; M_rel_blocks 100 0 0; M_verify; M_lock_blocks 606060; M_seq 1 4294967293; M_sign_and_update; M_digest].
